@@ -9,6 +9,8 @@ import OV.Lemmas.C06SoundTag
 import OV.Lemmas.C06CompleteOr
 import OV.Lemmas.C06CommuteSem
 import OV.Lemmas.C06Greedy
+import OV.Lemmas.C06Exc
+import OV.Model.C06Rule
 /-!
 # C06 — the pattern matcher reports a match exactly when the subgraph is an instance
 
@@ -584,6 +586,153 @@ def okEnv : Env :=
     g := { nodes := [mkGNode "Neg" [some 0] [1], mkGNode "Sub" [some 1, some 0] [2]],
            outputs := [2], consts := [], foreign := [], extUses := [] }
     close := closeEq }
+
+/-! ## The exception channel (`OV.Model.C06Exc`, finding C06-F9) -/
+
+/-- **Exception freedom, and the total model is the code there.**  `patternMatchX` (`OV.Model.C06Exc`) restates the
+matcher with the three `raise` statements of `merge_current_match` / `PartialMatchResult.merge` (nothing on the
+way out of `Pattern.match` catches them) and with the truth value of the `MatchResult` that `_match_node` tests
+after `NodePattern.matches`; `patternMatch` is the total model every other theorem of this file is about.  A
+pattern without tagged `OpIdDispatchOr` (`backOk`; any `BacktrackingOr`, tagged or not, any number of output
+nodes) never makes `Pattern.match` raise: on every graph, root and `remove_nodes` the exception-aware model
+returns, and returns `patternMatch` — so every theorem of this file speaks about the code with its exceptions on
+that fragment.  `_partial`: the hypothesis `backOk` is forced — `matchX_raises_refuted` (finding C06-F9: the
+ignored `bind` result of a tagged dispatch-OR leaves a failed partial match behind a `True` return value, and the
+next `merge_current_match` raises).  Outside `backOk` no refinement is proved (the two models also differ in
+intermediate states once a partial match is failed; the tie compares `patternMatchX` with the code on every case). -/
+theorem matchX_no_exception_partial (E : Env) (root : NodeId) (rm : Bool) (hf8 : E.fixF8 = true)
+    (hbk : E.p.backOk = true) : patternMatchX E root rm = .ok (patternMatch E root rm) := by
+  obtain ⟨m, hm⟩ := matcherMatchX_tot E hf8 hbk root rm
+  unfold patternMatchX
+  rw [hm, patternMatch_post, matcherMatchX_ref E hf8 hbk root rm m hm]
+
+/-- **Soundness with the exception channel** on that fragment: whatever `Pattern.match` returns as a match is an
+instance (all conclusions of `match_sound`). -/
+theorem match_sound_exc_partial (E : Env) (root : NodeId) (rm : Bool) (r : Result)
+    (hf3 : E.fixF3 = true) (hf8 : E.fixF8 = true) (hbk : E.p.backOk = true) (htopo : E.p.topoDeep)
+    (har : E.fixF1 = true ∨ OutputArityOk E.p E.g) (h : patternMatchX E root rm = .ok (some r)) :
+    Instance E root r.assign ∧ ChecksPass E.p r.assign ∧
+      (rm = true → Removable E.g r.nodes r.outputs) ∧
+      E.p.outputs.mapM (r.assign.outputOf E.p) = some r.outputs ∧
+      r.nodes = r.nb.map (·.2) ∧
+      (∀ nm, some nm ∈ E.p.inputs → ∃ b, r.assign.names nm = some b) := by
+  rw [matchX_no_exception_partial E root rm hf8 hbk] at h
+  exact match_sound E root rm r hf3 htopo har (Except.ok.inj h)
+
+/-- **Completeness for leftmost instances, exceptions included**: under the hypotheses of
+`match_complete_leftmost_partial` `Pattern.match` does not raise and reports the match (and with
+`remove_nodes=True` it does not raise and reports one iff the matched nodes are removable). -/
+theorem match_complete_leftmost_exc_partial (E : Env) (A : Assign) (root : NodeId) (np0 : NPId)
+    (hf3 : E.fixF3 = true) (hf8 : E.fixF8 = true) (hbk : E.p.backOk = true) (hnu : E.p.nuOk) (htopo : E.p.topoDeep)
+    (har : E.fixF1 = true ∨ OutputArityOk E.p E.g) (hsingle : E.p.outputNodes = [np0])
+    (hroot : OutputsOfRoot E.p np0) (hinst : InstanceL E root A) (hchk : ChecksPass E.p A) :
+    ∃ r, patternMatchX E root false = .ok (some r) ∧
+      ∃ o, patternMatchX E root true = .ok o ∧ (o.isSome = true ↔ Removable E.g r.nodes r.outputs) := by
+  obtain ⟨r, h1, h2⟩ := match_complete_leftmost_partial E A root np0 hf3 hbk hnu htopo har hsingle hroot hinst hchk
+  exact ⟨r, by rw [matchX_no_exception_partial E root false hf8 hbk, h1],
+    _, matchX_no_exception_partial E root true hf8 hbk, h2⟩
+
+/-- **`RewriteRule.commute` hands every variant the rule's own `remove_nodes`** (and nothing else of the rule
+changes what is matched): the variant rules are the variants of `GraphPattern.commute()`, in order, each with
+`remove_nodes` of the rule it was made from.  No hypotheses. -/
+theorem rule_commute_variants (fix7a fix7b fix7c : Bool) (r : Rule) (rs : List Rule)
+    (h : Rule.commute fix7a r fix7b fix7c = .ok rs) :
+    ∃ l, commute fix7a r.p fix7b fix7c = .ok l ∧ rs.map (·.p) = l ∧ ∀ v ∈ rs, v.removeNodes = r.removeNodes := by
+  unfold Rule.commute at h
+  cases hc : commute fix7a r.p fix7b fix7c with
+  | error e => rw [hc] at h; cases h
+  | ok l =>
+    rw [hc] at h
+    cases h
+    refine ⟨l, rfl, by simp [List.map_map, Function.comp_def], ?_⟩
+    intro v hv
+    obtain ⟨q, _, rfl⟩ := List.mem_map.1 hv
+    rfl
+
+/-- **`commute=True` end to end for a rule that keeps its nodes** (`remove_nodes=False`): through the entry
+`RewriteRule.commute` and the match call of `try_rewrite` — exceptions included — some variant rule reports a match
+iff the subgraph is an instance of the pattern under some swap of the operands of its commutative nodes.  In
+particular the removability side condition plays no role for any variant.  Composition of `rule_commute_variants`,
+`commute_is_swap_variants_partial`, `commute_matches_iff_swap_instance_partial` and `matchX_no_exception_partial`;
+hypotheses as there (named-leaf patterns whose variants satisfy `IffHyps`). -/
+theorem rule_commute_matches_iff_partial (E : Env) (root : NodeId) (np0 : NPId)
+    (fix7a fix7b fix7c : Bool) (rs : List Rule) (hf8 : E.fixF8 = true) (hn : E.p.namedLeaves = true)
+    (h : Rule.commute fix7a { p := E.p, removeNodes := false } fix7b fix7c = .ok rs)
+    (hH : ∀ m ∈ masks fix7b E.p.nodes, IffHyps E (variantOf E.p m) np0) :
+    (∃ v ∈ rs, ∃ r, Rule.tryMatch E v root = .ok (some r)) ↔
+      ∃ m ∈ masks fix7b E.p.nodes, ∃ A, Instance { E with p := variantOf E.p m } root A ∧
+        ChecksPass (variantOf E.p m) A := by
+  obtain ⟨l, hl, hmap, hrm⟩ := rule_commute_variants fix7a fix7b fix7c _ rs h
+  rw [← commute_matches_iff_swap_instance_partial E root np0 fix7a fix7b fix7c l hn hl hH]
+  have hvar := commute_is_swap_variants_partial fix7a fix7b fix7c E.p l hn hl
+  constructor
+  · rintro ⟨v, hv, r, hr⟩
+    refine ⟨v.p, by rw [← hmap]; exact List.mem_map_of_mem hv, ?_⟩
+    have hqv : v.p ∈ (masks fix7b E.p.nodes).map (variantOf E.p) := by
+      rw [← hvar, ← hmap]; exact List.mem_map_of_mem hv
+    obtain ⟨m, hm, hmv⟩ := List.mem_map.1 hqv
+    have hbk : v.p.backOk = true := by rw [← hmv]; exact (hH m hm).bk
+    unfold Rule.tryMatch at hr
+    rw [hrm v hv, matchX_no_exception_partial { E with p := v.p } root false hf8 hbk] at hr
+    rw [Except.ok.inj hr]
+    rfl
+  · rintro ⟨q, hq, hs⟩
+    rw [← hmap] at hq
+    obtain ⟨v, hv, rfl⟩ := List.mem_map.1 hq
+    have hqv : v.p ∈ (masks fix7b E.p.nodes).map (variantOf E.p) := by
+      rw [← hvar, ← hmap]; exact List.mem_map_of_mem hv
+    obtain ⟨m, hm, hmv⟩ := List.mem_map.1 hqv
+    have hbk : v.p.backOk = true := by rw [← hmv]; exact (hH m hm).bk
+    refine ⟨v, hv, ?_⟩
+    unfold Rule.tryMatch
+    rw [hrm v hv, matchX_no_exception_partial { E with p := v.p } root false hf8 hbk]
+    cases hpm : patternMatch { E with p := v.p } root false with
+    | none => rw [hpm] at hs; cases hs
+    | some r => exact ⟨r, rfl⟩
+
+def f9Alts : List DAlt := [{ domain := "", op := "Neg", tag := 0, np := 0, idx := 0 },
+                           { domain := "", op := "Sub", tag := 1, np := 1, idx := 0 }]
+
+/-- finding C06-F9 (a): `Add(OrValue([Neg(x), Sub(x,x)], tag_var="t"), OrValue([OrValue([Neg(x), Sub(x,x)],
+tag_var="t"), y]))` against `n = Neg(a); s = Sub(a, a); r = Add(n, s)` -/
+def f9a : Env :=
+  { p := { inputs := [some "x", some "y"], cond := true,
+           nodes := [mkNode "Neg" [some xVar] 1, mkNode "Sub" [some xVar, some xVar] 1,
+                     mkNode "Add" [some (.orD 10 none (some "t") f9Alts),
+                       some (.orB 12 none none [] [.orD 11 none (some "t") f9Alts,
+                                                   .var 13 (some "y") true false none])] 1],
+           outputs := [.out 2 0] }
+    g := { nodes := [mkGNode "Neg" [some 0] [1], mkGNode "Sub" [some 0, some 0] [2],
+                     mkGNode "Add" [some 1, some 2] [3]],
+           outputs := [3], consts := [], foreign := [], extUses := [] }
+    close := closeEq }
+
+/-- finding C06-F9 (b): `Add(OrValue([Neg(x), Sub(x,x)], tag_var="x"), OrValue([Neg(x), x], tag_var="t"))` (the
+tag variable of the dispatch-OR is also the name of a pattern variable) against `n = Neg(a); r = Add(n, n)` -/
+def f9b : Env :=
+  { p := { inputs := [some "x"], cond := true,
+           nodes := [mkNode "Neg" [some xVar] 1, mkNode "Sub" [some xVar, some xVar] 1,
+                     mkNode "Add" [some (.orD 10 none (some "x") f9Alts),
+                       some (.orB 12 none (some "t") [0, 1] [.out 0 0, xVar])] 1],
+           outputs := [.out 2 0] }
+    g := { nodes := [mkGNode "Neg" [some 0] [1], mkGNode "Add" [some 1, some 1] [2]],
+           outputs := [2], consts := [], foreign := [], extUses := [] }
+    close := closeEq }
+
+/-- **Exception freedom fails without `backOk`** (finding C06-F9, open): both exceptions are reachable — the
+model's `ValueError("Current match is not successful.")` on witness (a), `NotImplementedError("Merging failed
+matches …")` on witness (b); replayed on the real matcher on every run (`corpus_c06.jsonl`). -/
+theorem matchX_raises_refuted :
+    ¬ ∀ (E : Env) (root : NodeId) (rm : Bool), E.fixF8 = true → ∃ o, patternMatchX E root rm = .ok o := by
+  intro h
+  obtain ⟨o, ho⟩ := h f9a 2 true rfl
+  have : excOf (patternMatchX f9a 2 true) = some .valueError := by decide
+  rw [ho] at this
+  cases this
+
+example : excOf (patternMatchX f9a 2 true) = some .valueError ∧
+    excOf (patternMatchX f9b 1 false) = some .notImplemented ∧
+    f9a.p.backOk = false ∧ f9b.p.backOk = false ∧ f9a.fixF8 = true := by decide
 
 /-- `Add(OrValue([Neg(x), Abs(x)]), y)` (an OpIdDispatchOr) against `n = Neg(a); s = Add(n, b)` -/
 def dispEnv : Env :=
@@ -1172,10 +1321,27 @@ example : addPat.namedLeaves = true ∧ (commute true addPat true false).toOptio
       simp [variantOf, swapPat, swapNode, addEnv, addPat, mkNode] at hP
       subst hP; rfl
 
+/-- `rule_commute_variants` / `rule_commute_matches_iff_partial` are not vacuous: the rule `Add(x, y)` with
+`remove_nodes=False` commutes into two rules, both keep `remove_nodes=False`, both report a match on `addEnv`
+(the remaining hypotheses `namedLeaves`, `IffHyps` are those of the example above) -/
+example : addEnv.fixF8 = true ∧
+    ((Rule.commute true { p := addEnv.p, removeNodes := false } true false).toOption.map
+      (fun rs => rs.map (fun v => (v.removeNodes, ((Rule.tryMatch addEnv v 0).toOption.map (·.isSome)))))) =
+      some [(false, some true), (false, some true)] := by decide
+
 /-- `commute_variant_instances_partial` is not vacuous: the swapped copy of `Add(x, y)` exists -/
 example : (copyGraph true addPat [true] false).toOption.isSome = true ∧ addPat.namedLeaves = true := by decide
 
 /-- `commute` on `Add(x, y)`: two variants (so `commute_exact` is not vacuous). -/
 example : (commute true addPat).toOption.map List.length = some 2 := by decide
+
+/-- outside `backOk` without exception: two tagged dispatch-ORs, nothing raised, match reported (`tagEnv "u"`) or not
+(`tagEnv "t"`); non-vacuity of `matchX_no_exception_partial` / `match_sound_exc_partial` / `match_complete_leftmost_exc_partial`:
+`orEnv`, `lmEnv` (BacktrackingOr, `backOk`) -/
+example : (tagEnv "u").p.backOk = false ∧ excOf (patternMatchX (tagEnv "u") 2 true) = none ∧
+    ((patternMatchX (tagEnv "u") 2 true).toOption.map (·.isSome)) = some true ∧
+    ((patternMatchX (tagEnv "t") 2 true).toOption.map (·.isSome)) = some false ∧
+    orEnv.p.backOk = true ∧ orEnv.fixF8 = true ∧ lmEnv.p.backOk = true ∧
+    ((patternMatchX lmEnv 1 true).toOption.map (·.isSome)) = some true := by decide
 
 end OV.Props.C06
